@@ -24,7 +24,10 @@ func C16Req(t *rapid.T, label string, concurrent bool) *world.Req {
 		cc = "max-age=" + itoa(life)
 	}
 	rp := world.Reply{Kind: "resp", Status: 200, Body: world.Body{Len: Pick(t, label+"-blen", 16, 64, 5000, 70000)},
-		Header: [][2]string{H("Date", "$T+0"), H("Cache-Control", cc), H("Etag", `"v$S"`), H("X-Gen", "g$S")}}
+		Header: [][2]string{H("Date", "$T+0"), H("Cache-Control", cc), H("X-Gen", "g$S")}}
+	// validators: ETag, Last-Modified, both or none (each takes another path through the
+	// construction of the conditional request)
+	rp.Header = append(rp.Header, validators(t, label+"-val")...)
 	if Pct(t, label+"-vary", 50) {
 		rp.Header = append(rp.Header, H("Vary", "X-A"))
 	}
